@@ -66,7 +66,19 @@ def generate(ctx):
     info["generated_entries"] = len(_entries(GEN))
     _state["gen"] = info
     ctx["c14_gen"] = info
-    return []  # the generated obligations are theorems of Props/C14.lean (inventory_closed, inventory_live)
+    # how the transform goroutines use the *os.File they share with Apply (tools/extractlocks -> Generated/Locks.lean;
+    # obligation transform_goroutines_positional_generated in Props/C14_Offsets.lean)
+    ltool = runner.build_tool("extractlocks")
+    lgen = os.path.join(runner.LEAN, "Relic", "Generated", "Locks.lean")
+    ltmp = lgen + ".tmp." + str(os.getpid())
+    lr = runner.sh([ltool, runner.REPO, ltmp])
+    if lr.returncode != 0 or not os.path.exists(ltmp):
+        raise runner.Broken("extractlocks failed (ZipToTar / transformer.send not found?)", lr.stdout[-2000:])
+    if not os.path.exists(lgen) or open(ltmp).read() != open(lgen).read():
+        os.replace(ltmp, lgen)
+    else:
+        os.remove(ltmp)
+    return []  # the generated obligations are theorems of Props/C14*.lean (inventory_closed, inventory_live, transform_goroutines_positional_generated)
 
 
 def search_after_broken_obligation(ctx, broken):
